@@ -85,7 +85,8 @@ class ServiceAccessPoint(object):
             return insertable
 
     def remove_socket(self, socket):
-        assert socket.addr == self.addr
+        # the socket is unbound when the link terminated after the lookup
+        assert socket.addr is None or socket.addr == self.addr
         socket.close()
         with self.llc.lock:
             try:
